@@ -96,13 +96,18 @@ def k_advp():
     return {"dek": p.dek, "mac": p.mac, "nonce": p.nonce, "padding": p.padding}, b""
 
 
-def k_sb21cfg():
-    """BootImageV21 through load_from_config (YAML-style dict), signed with the repository's test keys, exported."""
+_SHARED_CFG = {}
+
+
+def k_sb21cfg(shared: bool = False):
+    """BootImageV21 through load_from_config (YAML-style dict), signed with the repository's test keys, exported.
+    shared=True: the SAME configuration dictionary object is used for every artifact of this kind in the process."""
     from spsdk.sbfile.sb2.images import BootImageV21
 
     d = os.path.join(TESTS, "nxpimage", "data", "sb_sources")
     kc = os.path.join(d, "keys_and_certs")
-    cfg = {
+    cfg = _SHARED_CFG.get("sb21") if shared else None
+    cfg = cfg or {
         "options": {"flags": "0x8", "buildNumber": "0x1", "productVersion": "1.00.00", "componentVersion": "1.00.00"},
         "containerKeyBlobEncryptionKey": "00" * 32 if False else KEK.hex(),
         "sections": [{"section_id": 0, "commands": [{"erase": {"address": 0, "length": 0x1000}}]}],
@@ -110,6 +115,8 @@ def k_sb21cfg():
         "mainRootCertId": 0,
         "signPrivateKey": os.path.join(kc, "k0_cert0_2048.pem"),
     }
+    if shared:
+        _SHARED_CFG["sb21"] = cfg
     with tempfile.TemporaryDirectory() as td:
         img = BootImageV21.load_from_config(cfg, rkth_out_path=os.path.join(td, "hash.bin"), search_paths=[d])
         data = img.export()
@@ -144,13 +151,15 @@ def k_mbi_class():
     return {"ctr_init_vector": mbi.ctr_init_vector}, data
 
 
-def k_mbi_cfg():
-    """Encrypted MBI through load_from_config without CtrInitVector."""
+def k_mbi_cfg(shared: bool = False):
+    """Encrypted MBI through load_from_config without CtrInitVector.
+    shared=True: the SAME configuration dictionary object is used for every artifact of this kind in the process."""
     from spsdk.image.mbi.mbi import get_mbi_class
 
     d = os.path.join(TESTS, "image", "mbi", "data")
     kc = os.path.join(d, "keys_and_certs")
-    cfg = {
+    cfg = _SHARED_CFG.get("mbi") if shared else None
+    cfg = cfg or {
         "family": "mimxrt685s", "outputImageExecutionTarget": "load-to-ram", "outputImageAuthenticationType": "encrypted",
         "masterBootOutputFile": "out.bin", "inputImageFile": os.path.join(TESTS, "nxpimage", "data", "mbi", "test_application.bin"),
         "outputImageExecutionAddress": "0x12345678", "enableTrustZone": False,
@@ -158,6 +167,8 @@ def k_mbi_cfg():
         "useKeyStore": True, "enableHwUserModeKeys": False, "rootCertificate0File": os.path.join(kc, "selfsign_2048_v3.der.crt"), "mainRootCertId": 0,
         "signPrivateKey": os.path.join(kc, "selfsign_privatekey_rsa2048.pem"),
     }
+    if shared:
+        _SHARED_CFG["mbi"] = cfg
     cls = get_mbi_class(cfg)
     mbi = cls()
     mbi.load_from_config(cfg)
@@ -233,7 +244,8 @@ def k_sb1():
 
 
 KINDS = {"sb20": k_sb20, "sb21": k_sb21, "advp": k_advp, "sb21cfg": k_sb21cfg, "mbi_class": k_mbi_class, "mbi_cfg": k_mbi_cfg,
-         "otfad": k_otfad, "iee": k_iee, "bee": k_bee, "hab": k_hab, "hexstr": k_hexstr}
+         "otfad": k_otfad, "iee": k_iee, "bee": k_bee, "hab": k_hab, "hexstr": k_hexstr,
+         "sb21cfg_same": lambda: k_sb21cfg(True), "mbi_cfg_same": lambda: k_mbi_cfg(True)}
 
 
 def main():
